@@ -18,7 +18,8 @@ concrete_arrays()
 
 TEXTS = [u"", u"alfa", u"alfa alfa alfa", u"alfa bravo alfa", u"bravo charlie", u"charlie " + u"x" * 70 + u" alfa",
          u"école alfa \U0001F600", u"bravo bravo charlie alfa bravo", u"alfa^2 bravo",
-         u"alfa^0.5 charlie"]     # a weight below 1 next to weights of exactly 1 in one block
+         u"alfa^0.5 charlie",     # a weight below 1 next to weights of exactly 1 in one block
+         u"delta^0 alfa"]         # a posting whose weight is exactly 0.0 (a block whose weights are all zero; seed C10-3 read them back as 1.0)
 NT = len(TEXTS)
 FORMATS = ["positions", "characters", "frequency", "existence", "position_boosts", "character_boosts"]
 CODECS = [("w3 block1", dict(blocklimit=1)), ("w3 block2", dict(blocklimit=2)), ("w3 block3 z3", dict(blocklimit=3, compression=3)),
